@@ -14,6 +14,8 @@ def _vseek(c):
     c.requires("whence == 0 or whence == 1 or whence == 2")
     c.ensures("implies(whence == 0 and 0 <= offset and offset <= len(self.content), self.cur == offset)")
     c.ensures("self.cur >= 0 and self.cur <= len(self.content) and result == self.cur")
+    # the clamping target proved for every view class (`<cls>.seek:clamps-to-0-length`, position/end_of_file being cur/len(content))
+    c.ensures("self.cur == imax(0, imin(len(self.content), ite(whence == 1, old(self.cur), ite(whence == 2, len(self.content), 0)) + offset))")
     c.modifies("self.cur")
 
 
